@@ -216,3 +216,35 @@ Proof.
     destruct (laid_out_ge _ _ _ q H) as [Hq _]; [apply in_or_app; right; left; reflexivity|]. exact Hq.
   - cbn [app laid_out] in H. destruct H as (_ & _ & H). eapply IH; eassumption.
 Qed.
+
+(* C15, table half, as an explicit statement: the names of a validated symbol table are the FUNC/PROC directives of the
+   source, once each, in source order *)
+Fixpoint proc_names (l : list directive) : list String.string :=
+  match l with
+  | [] => []
+  | DLabel LFunc n :: r | DLabel LProc n :: r => n :: proc_names r
+  | _ :: r => proc_names r
+  end.
+
+Lemma expected_syms_names : forall ps, map fst (expected_syms ps) = proc_names (map p_dir ps).
+Proof.
+  induction ps as [|p r IH]; [reflexivity|].
+  cbn [expected_syms map proc_names]. destruct (p_dir p) as [v|k n|t v|t n rel|t|z]; try exact IH.
+  destruct k; [exact IH| |]; cbn [map fst]; f_equal; exact IH.
+Qed.
+
+Lemma syms_eqb_eq' : forall a b, syms_eqb a b = true -> a = b.
+Proof.
+  induction a as [|[n1 o1] r1 IH]; intros [|[n2 o2] r2] H; cbn [syms_eqb] in H; try discriminate; [reflexivity|].
+  apply andb_prop in H. destruct H as [H H3]. apply andb_prop in H. destruct H as [H1 H2].
+  apply String.eqb_eq in H1. apply Z.eqb_eq in H2. subst. f_equal. apply IH. exact H3.
+Qed.
+
+Theorem check_symtab_names : forall prog image syms,
+  check_symtab prog image syms = true -> map fst syms = proc_names prog.
+Proof.
+  intros prog image syms H. unfold check_symtab in H.
+  destruct (walk prog (bytes_map image) 0) as [[ps e]|] eqn:W; [|discriminate].
+  apply syms_eqb_eq' in H. subst syms. rewrite expected_syms_names.
+  rewrite (walk_source_order _ _ _ _ _ W). reflexivity.
+Qed.
